@@ -330,7 +330,94 @@ def _analytic_ramp(ctx, repo, fi, du, exp_call):
               "(for odd ns the last rfft bin is not Nyquist): every shift on such an axis is scaled", key="phase")
 
 
+def _argmax_offset(du, e, at, depth=6):
+    """Describe an index expression relative to the arg-max index: (offset, clipped) when it is imax + offset (possibly clipped to the
+    array bounds), None when it is something else."""
+    if depth <= 0:
+        return None
+    if isinstance(e, ast.Name):
+        ds = du.strong_reaching(e.id, at)
+        if len(ds) == 1 and ds[0].kind == "assign" and ds[0].value is not None and ds[0].unpack_index is None:
+            return _argmax_offset(du, ds[0].value, ds[0].stmt, depth - 1)
+        return None
+    if isinstance(e, ast.Call) and call_name(e) == "argmax":
+        return (0, False)
+    if isinstance(e, ast.Call) and call_name(e) in ("clip", "maximum", "minimum") and e.args:
+        inner = [a for a in e.args if _argmax_offset(du, a, at, depth - 1) is not None]
+        if len(inner) == 1:
+            off, _ = _argmax_offset(du, inner[0], at, depth - 1)
+            return (off, True)
+        return None
+    if isinstance(e, ast.BinOp) and isinstance(e.op, (ast.Add, ast.Sub)):
+        l, r = _argmax_offset(du, e.left, at, depth - 1), const_value(e.right)
+        if l is not None and r[0] and isinstance(r[1], int):
+            return (l[0] + (r[1] if isinstance(e.op, ast.Add) else -r[1]), l[1])
+        # imax + np.array([[-1], [0], [1]]) : a stencil; described by its element when subscripted (below)
+        return None
+    if isinstance(e, ast.Subscript):
+        ok, k = const_value(e.slice)
+        base = e.value
+        if isinstance(base, ast.Name):
+            ds = du.strong_reaching(base.id, at)
+            if len(ds) == 1 and ds[0].value is not None:
+                base, at = ds[0].value, ds[0].stmt
+        clipped = False
+        while isinstance(base, ast.Call) and call_name(base) in ("clip", "maximum", "minimum") and base.args:
+            clipped = True
+            base = base.args[0]
+        if ok and isinstance(k, int) and isinstance(base, ast.BinOp) and isinstance(base.op, ast.Add):
+            l = _argmax_offset(du, base.left, at, depth - 1)
+            offs = [c.value for c in find(base.right, ast.Constant) if isinstance(c.value, int)] if isinstance(base.right, ast.Call) else None
+            negs = []
+            if isinstance(base.right, ast.Call) and base.right.args:
+                for x in ast.walk(base.right.args[0]):
+                    if isinstance(x, ast.UnaryOp) and isinstance(x.op, ast.USub) and isinstance(x.operand, ast.Constant):
+                        negs.append(-x.operand.value)
+                    elif isinstance(x, ast.Constant) and isinstance(x.value, int):
+                        negs.append(x.value)
+                # constants under a unary minus were collected twice (as -c and c): keep source order of the literal
+                seq = []
+                for x in ast.walk(base.right.args[0]):
+                    pass
+                txt = src(base.right.args[0]).replace("[", " ").replace("]", " ").replace(",", " ").split()
+                try:
+                    seq = [int(t) for t in txt]
+                except ValueError:
+                    seq = []
+                if l is not None and seq and -len(seq) <= k < len(seq):
+                    return (l[0] + seq[k], clipped or l[1])
+            _ = offs
+        return None
+    return None
+
+
+def d5_parabolic_edges(ctx):
+    ctx.rule("D5", "parabolic_max falls back to the raw sample exactly when the arg-max is the first or the last sample (imax == 0 | imax == ns - 1)")
+    repo = ctx.repo
+    fi = repo.fn("ibldsp.utils.parabolic_max")
+    du = DefUse(fi.node)
+    ors = [c for c in find(fi.node, ast.Call, nested=False) if call_name(c) in ("logical_or", "bitwise_or") and len(c.args) == 2
+           and all(isinstance(a, ast.Compare) and len(a.ops) == 1 and isinstance(a.ops[0], ast.Eq) for a in c.args)]
+    if not ors:
+        raise AnchorMissing("parabolic_max: edge mask `first sample or last sample` not found")
+    m = ors[0]
+    st = du.cfg.node_for(m).stmt
+    sides = []
+    for cmp_ in m.args:
+        d = _argmax_offset(du, cmp_.left, st)
+        if d is None:
+            raise AnalysisError(f"parabolic_max: edge test operand `{src(cmp_.left)}` is not understood relative to the arg-max index")
+        sides.append((d, cmp_))
+    for (off, clipped), cmp_ in sides:
+        ctx.check(off == 0, fi, cmp_, cmp_, "the edge test is taken on the arg-max index itself",
+                  f"`{src(cmp_)}` tests the {'clipped ' if clipped else ''}index arg-max{off:+d}, not the arg-max: a maximum on the second / penultimate sample is treated as an edge, "
+                  "the parabolic interpolation is skipped there and the delay estimate snaps to an integer (error up to half a sample)", key="edge:" + norm(cmp_.comparators[0])[:30])
+    rhs = sorted(src(c.comparators[0]).replace(" ", "") for _, c in sides)
+    ctx.check(rhs == ["0", "ns-1"], fi, m, m, "edges are sample 0 and sample ns - 1", f"edge positions are {rhs}, expected 0 and ns - 1", key="edge-positions")
+
+
 def run(ctx):
+    ctx.run(d5_parabolic_edges)
     ctx.run(d1_no_mutation)
     ctx.run(d2_restore)
     ctx.run(d3_broadcast)
